@@ -217,6 +217,8 @@ class ClientWorld(object):
                     ev.append(("refuse:%d" % a.aid, F))
                 if menu.get("hang"):
                     ev.append(("hang:%d" % a.aid, F))  # the connection never establishes (SYN black-holed)
+                if menu.get("dnsfail"):
+                    ev.append(("dnsfail:%d" % a.aid, F))  # the host name does not resolve (not a ConnectError)
             else:
                 ev.append(("refuse:%d" % a.aid, Z))
         for c in self.net.open_conns():
@@ -362,6 +364,12 @@ class ClientWorld(object):
                 self._accept(a)
             elif kind == "refuse":
                 self.net.refuse(self.net.attempts[int(parts[1])])
+            elif kind == "dnsfail":
+                from twisted.internet import error
+                a = self.net.attempts[int(parts[1])]
+                a.state = "refused"
+                self.net.journal.append(("refuse", a.aid))
+                a.d.errback(error.DNSLookupError("no such host (virtual resolver)"))
             elif kind == "hang":
                 # the SYN is black-holed; the endpoint's own connect timeout (30 s for HostnameEndpoint, which
                 # afkak relies on: "Afkak does not apply a timeout to connection attempts") ends the attempt
